@@ -326,6 +326,8 @@ class Typer:
             offset = 0
             kwcls = None
             if tgt.kind == "repo":
+                if tgt.detail == "by-name":
+                    continue  # a guess from the method name alone must not teach the callee's parameters any types
                 callee = tgt.ref
                 if callee.cls is not None and tgt.detail != "unbound":
                     offset = 1
